@@ -5,10 +5,11 @@ import tree_streams as TS
 import e2e_streams as ES
 
 MODULE = "Props.C10"
-THEOREMS = ["C10_adjust_sum", "C10_harvest_positive", "C10_microdata_rows", "adjustLoop_spec", "mapM_length_of_ok"]
-PARTIAL = ["conservation through the whole harvest recursion (T10.b) is not yet a Lean theorem; proved: the rescaling kernel for all lists/targets, "
-           "positivity of the output, one microdata row per unit; the oracle checks the totals of every real bucket list and the model "
-           "reproduces harvest() bit for bit",
+THEOREMS = ["C10_adjust_sum", "C10_harvest_positive", "C10_microdata_rows", "adjustLoop_spec", "mapM_length_of_ok",
+            "harvest_all", "C10_harvest_conservation", "C10_forest_harvest_conservation", "C18_forest_tree"]
+PARTIAL = ["T10.b (conservation through the whole harvest: cached sub-trees, refinement, in-place rescaling of shared buckets) is proved for every "
+           "well-shaped tree and every RNG stream (C10_harvest_conservation), over exact arithmetic and under low_threshold >= 0; the clause 'as "
+           "many ranges as the tree has columns' is evaluated by the oracle on every real bucket list, not a Lean theorem",
            "T10.a is over exact arithmetic: in doubles the accumulated error may round differently ([3,4,5] 12->17 gives [4,5,8] in doubles, "
            "[4,5,7] in Q, both legal); the Float instance is what is compared with the implementation and the oracle checks the sum"]
 ASSUMPTIONS = []
